@@ -172,8 +172,18 @@ def check_case(case, ctx):
     desc = f'baseline {pts}, heights {(h_up, h_down)}, poly={poly}, line_height={lh}, scale={sc}'
     img = coord_image()
     eng = EngineLineCropper(line_height=lh, poly=poly, scale=sc)
-    crop = eng.crop(img, np.asarray(pts), [h_up, h_down])
+    hts = np.asarray([h_up, h_down], dtype=np.float64)       # heights as the layout engine / ALTO import deliver them
+    crop = eng.crop(img, np.asarray(pts), hts)
     ctx.executed()
+    # history: cropping the same line again (same arguments) gives the same crop and leaves the arguments alone
+    if case['h'] in (0, 3) and case['slope'] in (0, 3):
+        again = eng.crop(img, np.asarray(pts), hts)
+        ctx.executed()
+        if hts.tolist() != [h_up, h_down] or again.shape != crop.shape or not np.array_equal(again, crop):
+            ctx.violation('same-crop-on-every-call', f'{K}/second-crop-of-the-same-line-differs',
+                          f'{desc}: cropping the same line twice gives {crop.shape} then {again.shape}; heights argument now {hts.tolist()}')
+            return
+        ctx.tag('cropped-twice')
     P = np.asarray(pts, dtype=float)
     L = float(np.hypot(*(P[-1] - P[0])))
     u = (P[-1] - P[0]) / L
@@ -284,6 +294,37 @@ def check_case(case, ctx):
             return
         if not valid.all():
             ctx.tag('general-path-vs-fast-path')
+        # the same comparison through the page-level LineCropper (process_page and crop_lines)
+        if case['lh'] == BOUNDS['quick']['line_h'][0] and case['slope'] in (0, 1, 4):
+            import configparser
+            from pero_ocr.core.layout import PageLayout, RegionLayout, TextLine
+            from pero_ocr.document_ocr.page_parser import LineCropper
+            cfg = configparser.ConfigParser()
+            cfg['LINE_CROPPER'] = {'INTERP': str(poly), 'LINE_SCALE': str(sc), 'LINE_HEIGHT': str(lh)}
+            res = []
+            for image, shift in ((img, (0, 0)), (big, (ox, oy))):
+                lc = LineCropper(cfg['LINE_CROPPER'])
+                page = PageLayout(id='p', page_size=image.shape[:2])
+                reg = RegionLayout('r', np.zeros((4, 2)))
+                reg.lines.append(TextLine(id='l', baseline=np.asarray(pts) + np.asarray(shift), heights=[h_up, h_down]))
+                page.regions.append(reg)
+                lc.process_page(image, page)
+                c1 = reg.lines[0].crop
+                l2 = TextLine(id='l2', baseline=np.asarray(pts) + np.asarray(shift), heights=[h_up, h_down])
+                lc.crop_lines(image, [l2])
+                res.append((c1, l2.crop))
+                ctx.executed(2)
+            for which, k in (('process_page', 0), ('crop_lines', 1)):
+                a_, b_ = res[0][k], res[1][k]
+                if a_.shape != b_.shape and abs(a_.shape[1] - b_.shape[1]) == 1 and a_.shape[0] == b_.shape[0]:
+                    continue
+                if a_.shape != b_.shape or np.abs(a_.astype(np.float64) - b_.astype(np.float64)).max() > 0.2 or \
+                        a_.shape != crop.shape and abs(a_.shape[1] - crop.shape[1]) > 1:
+                    ctx.violation('same-pixels-on-fast-and-general-path', f'{ID}/LineCropper/{which}/shifted-crop-differs',
+                                  f'{desc}: LineCropper.{which} gives a crop of shape {a_.shape} from the page and {b_.shape} from the shifted canvas '
+                                  f'(engine crop {crop.shape})')
+                    return
+            ctx.tag('line-cropper-partly-outside')
     # fast_remap against a plain full-image remap with the same coordinates
     if case['start'] == 0 and case['h'] == 0:
         coords = eng.get_crop_inputs(np.asarray(pts), [h_up, h_down], lh)
@@ -314,5 +355,5 @@ def describe(tier):
                         'for degenerate baselines both a proper crop and a blank image of the configured height are accepted'],
         'min_nontrivial': 100,
         'required_tags': ['curved-baselines', 'cubic-with-4-or-more-points', 'general-path-vs-fast-path', 'fast-path-vs-full-remap',
-                          'degenerate-baselines'],
+                          'degenerate-baselines', 'cropped-twice', 'line-cropper-partly-outside'],
     }
